@@ -163,6 +163,60 @@ fn random_walk<T: LabelType + Default + 'static>(seed: u64, nlabels: usize, len:
     lines
 }
 
+/// wide histories: 36-48 labels, hubs with dozens of outgoing / incoming attacks, many removals; the projection is logged every
+/// 12 steps (events "x" in between only carry the operation, the judge steps its model on them)
+fn wide_walk(seed: u64, len: usize) -> Vec<String> {
+    let mut rng = StdRng::seed_from_u64(seed);
+    let nl = rng.gen_range(36..=48);
+    let universe: Vec<usize> = (1..=nl).collect();
+    let mk = |x: usize| x;
+    let un = |x: &usize| *x;
+    let mut af: AAFramework<usize> = AAFramework::default();
+    let mut lines = vec![json!({"ev": "reset", "init": [], "ty": "usize-wide"}).to_string()];
+    let mut nids = 0usize;
+    let hubs: Vec<usize> = (0..3).map(|_| rng.gen_range(1..=nl)).collect();
+    let mut step = 0usize;
+    let mut emit = |af: &mut AAFramework<usize>, o: Op, nids: &mut usize, lines: &mut Vec<String>, force: bool| {
+        if o.op == "newarg" {
+            *nids += 1;
+        }
+        let res = apply(af, &o, &mk);
+        step += 1;
+        if force || step % 12 == 0 {
+            lines.push(json!({"ev": "u", "o": op_json(&o), "res": res, "proj": proj(af, &universe, *nids + 1, &mk, &un)}).to_string());
+        } else {
+            lines.push(json!({"ev": "x", "o": op_json(&o), "res": res}).to_string());
+        }
+    };
+    for l in 1..=nl {
+        emit(&mut af, Op { op: "newarg".into(), a: l, b: l }, &mut nids, &mut lines, false);
+    }
+    for _ in 0..len {
+        let h = hubs[rng.gen_range(0..hubs.len())];
+        let y = universe[rng.gen_range(0..nl)];
+        let x: f64 = rng.gen();
+        let o = if x < 0.40 {
+            Op { op: "newatt".into(), a: h, b: y }
+        } else if x < 0.50 {
+            Op { op: "newatt".into(), a: y, b: h }
+        } else if x < 0.65 {
+            Op { op: "rmatt".into(), a: h, b: y }
+        } else if x < 0.72 {
+            Op { op: "rmarg".into(), a: y, b: y }
+        } else if x < 0.82 {
+            Op { op: "newarg".into(), a: y, b: y }
+        } else if x < 0.92 {
+            Op { op: "newatt".into(), a: y, b: universe[rng.gen_range(0..nl)] }
+        } else {
+            Op { op: "rmatt".into(), a: y, b: universe[rng.gen_range(0..nl)] }
+        };
+        emit(&mut af, o, &mut nids, &mut lines, false);
+    }
+    // a last full projection
+    emit(&mut af, Op { op: "rmatt".into(), a: 1, b: 1 }, &mut nids, &mut lines, true);
+    lines
+}
+
 pub fn cmd_store(a: &Args) {
     util::install_quiet_panic_hook();
     let out = a.get("out", "/dev/stdout");
@@ -199,6 +253,16 @@ pub fn cmd_store(a: &Args) {
             let s = seed.wrapping_mul(7919).wrapping_add(*i as u64);
             let nl = 3 + (*i % 4);
             if i % 2 == 0 { random_walk::<usize>(s, nl, len, i % 4 == 0, &mk_u, &un_u, "usize", false) } else { random_walk::<String>(s, nl, len, i % 4 == 1, &mk_s, &un_s, "string", rt) }
+        });
+        all.extend(res.into_iter().flatten());
+    }
+    let wide = a.num("wide", 0);
+    if wide > 0 {
+        let len = a.num("widelen", 600);
+        let jobs: Vec<usize> = (0..wide).collect();
+        let res = util::par_map(jobs, threads, |i| {
+            util::install_quiet_panic_hook();
+            wide_walk(seed.wrapping_mul(104729).wrapping_add(*i as u64), len)
         });
         all.extend(res.into_iter().flatten());
     }
